@@ -152,6 +152,17 @@ pub fn make_case(w: &World, seed: u64, kind_sel: u64, depth: u32, sane: bool) ->
     let mut rel = Vec::new();
     let mut dumps = Vec::new();
     let mut internal = None;
+    if kind_sel % 13 >= 10 {
+        let i = (seed % 6) as usize;
+        keys.push(i);
+        let k = w.key(i, false);
+        let (desc, kind): (Descriptor<Key>, &'static str) = match kind_sel % 13 {
+            10 => (Descriptor::new_pkh(k).ok()?, "pkh"),
+            11 => (Descriptor::new_wpkh(k).ok()?, "wpkh"),
+            _ => (Descriptor::new_sh_wpkh(k).ok()?, "shwpkh"),
+        };
+        return Some(Case { desc, kind, ms_dump: vec![], keys, abs, rel, internal: None });
+    }
     let (desc, kind): (Descriptor<Key>, &'static str) = match kind_sel % 5 {
         0 | 1 => {
             let ci = CtxInfo { tap: false, legacy_like: false, n_keys: 6 };
@@ -319,10 +330,16 @@ pub fn run(args: &[String]) {
         for env in lock_envs(&case, &mut rng) {
             id += 1;
             let mut s = String::new();
-            emit_case(&w, &case, &env, id, sane, &mut rng, &mut s);
+            if catch_unwind(AssertUnwindSafe(|| emit_case(&w, &case, &env, id, sane, &mut rng, &mut s))).is_err() {
+                // an uncaught library panic while building the case: reported, never silently dropped
+                println!("END");
+                println!("PANIC emit_case case={} seed={} c={} desc={}", id, cseed, c, case.desc);
+                continue;
+            }
             print!("{}", s);
         }
     }
+    println!("DONE sat");
 }
 
 fn emit_case(w: &World, c: &Case, env: &TxEnv, id: u64, sane: bool, rng: &mut Rng, out: &mut String) {
@@ -374,6 +391,24 @@ fn emit_case(w: &World, c: &Case, env: &TxEnv, id: u64, sane: bool, rng: &mut Rn
             writeln!(out, "HASH sha256 {} {}", hex(ws.as_bytes()), hex(sha256::Hash::hash(ws.as_bytes()).as_byte_array())).unwrap();
             if c.kind == "shwsh" {
                 let prog = ScriptBuf::new_p2wsh(&ws.wscript_hash());
+                writeln!(out, "HASH hash160 {} {}", hex(prog.as_bytes()), hex(hash160::Hash::hash(prog.as_bytes()).as_byte_array())).unwrap();
+            }
+        }
+        "pkh" => {
+            let h = cache.legacy_signature_hash(0, &spk, EcdsaSighashType::All.to_u32()).unwrap();
+            let msg = Message::from_digest(h.to_byte_array());
+            for &i in c.keys.iter() {
+                ecdsa.insert(i, ecdsa_sig(w, i, msg));
+            }
+        }
+        "wpkh" | "shwpkh" => {
+            let prog = ScriptBuf::new_p2wpkh(&w.pks[c.keys[0]].wpubkey_hash().unwrap());
+            let h = cache.p2wpkh_signature_hash(0, &prog, value, EcdsaSighashType::All).unwrap();
+            let msg = Message::from_digest(h.to_byte_array());
+            for &i in c.keys.iter() {
+                ecdsa.insert(i, ecdsa_sig(w, i, msg));
+            }
+            if c.kind == "shwpkh" {
                 writeln!(out, "HASH hash160 {} {}", hex(prog.as_bytes()), hex(hash160::Hash::hash(prog.as_bytes()).as_byte_array())).unwrap();
             }
         }
@@ -509,6 +544,217 @@ fn emit_case(w: &World, c: &Case, env: &TxEnv, id: u64, sane: bool, rng: &mut Rn
                         }
                         writeln!(out, "{}", l).unwrap();
                     }
+                }
+            }
+        }
+    }
+    // ---- plans (C17): existence, completion, reported locks and sizes, for a few asset sets
+    let mut plan_masks: Vec<u32> = masks.iter().cloned().take(6).collect();
+    if let Some(last) = masks.last() {
+        plan_masks.push(*last);
+    }
+    for &km in plan_masks.iter() {
+        for &pm in premasks.iter().take(2) {
+            let assets = Assets {
+                w,
+                keymask: km,
+                premask: pm,
+                lock_time: env.lock_time.map(absolute::LockTime::from_consensus),
+                sequence: env.sequence.map(Sequence),
+                ecdsa: &ecdsa,
+                tapleaf: &tapleaf,
+                tapkey,
+                internal_idx: c.internal,
+                cbmap: cbmap_store.as_ref(),
+            };
+            for mall in [false, true] {
+                let mode = if mall { "mall" } else { "nonmall" };
+                let r = catch_unwind(AssertUnwindSafe(|| {
+                    let d = c.desc.clone();
+                    let p = if mall { d.into_plan_mall(&assets) } else { d.into_plan(&assets) };
+                    match p {
+                        Err(_) => None,
+                        Ok(plan) => {
+                            let sat = plan.satisfy(&assets);
+                            Some((
+                                plan.absolute_timelock.map(|l| l.to_consensus_u32()),
+                                plan.relative_timelock.map(|l| l.to_sequence().to_consensus_u32()),
+                                plan.witness_size(),
+                                plan.scriptsig_size(),
+                                plan.satisfaction_weight(),
+                                sat,
+                            ))
+                        }
+                    }
+                }));
+                match r {
+                    Err(_) => writeln!(out, "PLAN {} {} {} PANIC", mode, km, pm).unwrap(),
+                    Ok(None) => writeln!(out, "PLAN {} {} {} NONE", mode, km, pm).unwrap(),
+                    Ok(Some((a, rl, ws, ss, wt, sat))) => {
+                        let mut l = format!(
+                            "PLAN {} {} {} OK {} {} {} {} {}",
+                            mode,
+                            km,
+                            pm,
+                            a.map(|x| x.to_string()).unwrap_or("-".into()),
+                            rl.map(|x| x.to_string()).unwrap_or("-".into()),
+                            ws,
+                            ss,
+                            wt
+                        );
+                        match sat {
+                            Err(_) => l.push_str(" SATERR"),
+                            Ok((wit, ssig)) => {
+                                // real serialized sizes
+                                let mut wser = 0usize;
+                                if !wit.is_empty() {
+                                    wser += bitcoin::VarInt(wit.len() as u64).size();
+                                    for it in wit.iter() {
+                                        wser += bitcoin::VarInt(it.len() as u64).size() + it.len();
+                                    }
+                                }
+                                let sser = bitcoin::VarInt(ssig.len() as u64).size() + ssig.len();
+                                l.push_str(&format!(" REAL {} {} SAT {}", wser, sser, wit.len()));
+                                for it in wit.iter() {
+                                    l.push(' ');
+                                    l.push_str(&hex(it));
+                                }
+                                l.push_str(" S ");
+                                l.push_str(&hex(ssig.as_bytes()));
+                            }
+                        }
+                        writeln!(out, "{}", l).unwrap();
+                    }
+                }
+            }
+        }
+    }
+    // ---- plans from the library's own `plan::Assets` (several capability entries per key)
+    //      vs the same capabilities given through a plain AssetProvider (C17 "all Assets")
+    {
+        use miniscript::plan::{AssetProvider, Assets as LibAssets, CanSign, TaprootAvailableLeaves, TaprootCanSign};
+        struct Eff<'b> {
+            w: &'b World,
+            ecdsa: u32,
+            keyspend: u32,
+            leaf: BTreeMap<TapLeafHash, u32>,
+            any_leaf: u32,
+            premask: u32,
+            lock_time: Option<absolute::LockTime>,
+            sequence: Option<relative::LockTime>,
+        }
+        impl<'b> AssetProvider<Key> for Eff<'b> {
+            fn provider_lookup_ecdsa_sig(&self, k: &Key) -> bool { self.ecdsa & (1 << self.w.key_index(k)) != 0 }
+            fn provider_lookup_tap_key_spend_sig(&self, k: &Key) -> Option<usize> {
+                if self.keyspend & (1 << self.w.key_index(k)) != 0 { Some(64) } else { None }
+            }
+            fn provider_lookup_tap_leaf_script_sig(&self, k: &Key, lh: &TapLeafHash) -> Option<usize> {
+                let bit = 1 << self.w.key_index(k);
+                if self.any_leaf & bit != 0 || self.leaf.get(lh).map_or(false, |m| m & bit != 0) { Some(64) } else { None }
+            }
+            fn provider_lookup_sha256(&self, h: &sha256::Hash) -> bool {
+                (0..N_PRE).any(|j| self.premask & (1 << j) != 0 && self.w.sha256_img(j) == *h)
+            }
+            fn provider_lookup_hash256(&self, h: &hash256::Hash) -> bool {
+                (0..N_PRE).any(|j| self.premask & (1 << j) != 0 && self.w.hash256_img(j) == *h)
+            }
+            fn provider_lookup_ripemd160(&self, h: &ripemd160::Hash) -> bool {
+                (0..N_PRE).any(|j| self.premask & (1 << j) != 0 && self.w.ripemd160_img(j) == *h)
+            }
+            fn provider_lookup_hash160(&self, h: &hash160::Hash) -> bool {
+                (0..N_PRE).any(|j| self.premask & (1 << j) != 0 && self.w.hash160_img(j) == *h)
+            }
+            fn check_older(&self, n: relative::LockTime) -> bool { self.sequence.map_or(false, |s| n.is_implied_by(s)) }
+            fn check_after(&self, n: absolute::LockTime) -> bool { self.lock_time.map_or(false, |l| n.is_implied_by(l)) }
+        }
+        let leaf_hashes: Vec<TapLeafHash> = if c.kind == "tr" {
+            c.ms_dump.iter().map(|(_, sb)| TapLeafHash::from_script(&ScriptBuf::from_bytes(sb.clone()), LeafVersion::TapScript)).collect()
+        } else {
+            vec![]
+        };
+        let tapctx = c.kind == "tr";
+        for cfg in 0..4u32 {
+            let mut lib = LibAssets::default();
+            let mut eff = Eff {
+                w, ecdsa: 0, keyspend: 0, leaf: BTreeMap::new(), any_leaf: 0,
+                premask: premasks[(cfg as usize) % premasks.len()],
+                lock_time: env.lock_time.map(absolute::LockTime::from_consensus),
+                sequence: env.sequence.and_then(|s| Sequence(s).to_relative_lock_time()),
+            };
+            lib.absolute_timelock = eff.lock_time;
+            lib.relative_timelock = eff.sequence;
+            for j in 0..N_PRE {
+                if eff.premask & (1 << j) != 0 {
+                    lib.sha256_preimages.insert(w.sha256_img(j));
+                    lib.hash256_preimages.insert(w.hash256_img(j));
+                    lib.ripemd160_preimages.insert(w.ripemd160_img(j));
+                    lib.hash160_preimages.insert(w.hash160_img(j));
+                }
+            }
+            let mut cfgdesc = String::new();
+            for &i in c.keys.iter() {
+                let k = w.key(i, tapctx);
+                let n_entries = 1 + rng.below(2);
+                for _ in 0..n_entries {
+                    let ecdsa = rng.chance(2, 3);
+                    let key_spend = rng.chance(1, 2);
+                    let script_spend = match rng.below(4) {
+                        0 => TaprootAvailableLeaves::None,
+                        1 => TaprootAvailableLeaves::Any,
+                        2 if !leaf_hashes.is_empty() => TaprootAvailableLeaves::Single(leaf_hashes[rng.below(leaf_hashes.len() as u64) as usize]),
+                        _ if !leaf_hashes.is_empty() => TaprootAvailableLeaves::Many(leaf_hashes.iter().cloned().filter(|_| rng.chance(1, 2)).collect()),
+                        _ => TaprootAvailableLeaves::Any,
+                    };
+                    if ecdsa { eff.ecdsa |= 1 << i; }
+                    if key_spend { eff.keyspend |= 1 << i; }
+                    match &script_spend {
+                        TaprootAvailableLeaves::Any => eff.any_leaf |= 1 << i,
+                        TaprootAvailableLeaves::Single(lh) => *eff.leaf.entry(*lh).or_insert(0) |= 1 << i,
+                        TaprootAvailableLeaves::Many(v) => for lh in v { *eff.leaf.entry(*lh).or_insert(0) |= 1 << i },
+                        TaprootAvailableLeaves::None => {}
+                    }
+                    write!(cfgdesc, "k{}:e{}k{}s{:?};", i, ecdsa as u8, key_spend as u8, script_spend).unwrap();
+                    let cs = CanSign { ecdsa, taproot: TaprootCanSign { key_spend, script_spend, sighash_default: true } };
+                    for path in k.full_derivation_paths() {
+                        lib.keys.insert(((k.master_fingerprint(), path), cs.clone()));
+                    }
+                }
+            }
+            for mall in [false, true] {
+                let run = |use_lib: bool| {
+                    catch_unwind(AssertUnwindSafe(|| {
+                        let d = c.desc.clone();
+                        let p = match (use_lib, mall) {
+                            (true, false) => d.into_plan(&lib),
+                            (true, true) => d.into_plan_mall(&lib),
+                            (false, false) => d.into_plan(&eff),
+                            (false, true) => d.into_plan_mall(&eff),
+                        };
+                        p.ok().map(|p| {
+                            (
+                                p.witness_template().iter().map(|x| x.to_string()).collect::<Vec<_>>().join(","),
+                                p.absolute_timelock.map(|l| l.to_consensus_u32()),
+                                p.relative_timelock.map(|l| l.to_sequence().to_consensus_u32()),
+                            )
+                        })
+                    }))
+                };
+                let a = run(true);
+                let b = run(false);
+                let same = match (&a, &b) {
+                    (Ok(x), Ok(y)) => x == y,
+                    _ => false,
+                };
+                if same {
+                    writeln!(out, "APLAN ok").unwrap();
+                } else {
+                    let show = |r: &std::thread::Result<Option<(String, Option<u32>, Option<u32>)>>| match r {
+                        Err(_) => "PANIC".to_string(),
+                        Ok(None) => "none".to_string(),
+                        Ok(Some((t, a, r))) => format!("plan[{}|{:?}|{:?}]", t.replace(' ', ""), a, r),
+                    };
+                    writeln!(out, "HBAD C17 case={} kind={} mode={} what=assets-plan-differs-from-capabilities lock={} seq={} desc={} assets={} lib={} expected={} libkeys={}",
+                        id, c.kind, if mall { "mall" } else { "nonmall" }, lock, seq, c.desc, cfgdesc.replace(' ', ""), show(&a), show(&b), format!("{:?}", lib.keys).replace(' ', "")).unwrap();
                 }
             }
         }
